@@ -41,6 +41,9 @@ def corpus(tier):
         c.append(("ra-null/" + m, ["raobj 2 -1 0"], rt.crypt_line("crypt_ra", 2, ph, s)))
         c.append(("ra-small/" + m, ["raobj 2 500 500"], rt.crypt_line("crypt_ra", 2, ph, s)))
         c.append(("ra-fail/" + m, ["raobj 2 -1 0"], rt.crypt_line("crypt_ra", 2, ph, s[:3] + b"\x7f")))
+        # other length classes of the phrase (a method may ask for memory only beyond its block size)
+        c.append(("rn-long/" + m, [rt.obj_line(0, fill="r", seed=8)], rt.crypt_line("crypt_rn", 0, (ph + b" ") * 9 + b"tail", s)))
+        c.append(("ra-small-max/" + m, ["raobj 2 40 40"], rt.crypt_line("crypt_ra", 2, bytes(range(1, 256)) * 2 + b"x", s)))
     big = [("y-small", y_setting(b"$y$", 8, 8)),            # 256 KiB
            ("y-32M", y_setting(b"$y$", 15, 8)),             # 32 MiB: MAP_HUGETLB attempt then fallback
            ("y-prehash", y_setting(b"$y$", 12, 32)),        # N/p >= 0x100 and N/p*r >= 0x20000: two passes
